@@ -368,6 +368,8 @@ def make_template(side='long', entry=None, stop=None, take=None, qty=1.0, on_ope
         def on_reduced_position(self, order):
             if reduced_stop is not None:
                 self.stop_loss = reduced_stop(self) if callable(reduced_stop) else reduced_stop
+            if extra_hooks and 'on_reduced_position' in extra_hooks:
+                extra_hooks['on_reduced_position'](self, order)
             self._rec('on_reduced_position', order=order, stop_loss=self.stop_loss, take_profit=self.take_profit)
 
         def on_close_position(self, order):
